@@ -48,3 +48,8 @@ pub mod c10 {
     use super::*;
     include!("c10.rs");
 }
+pub mod c12 {
+    #[allow(unused_imports)]
+    use super::*;
+    include!("c12.rs");
+}
